@@ -911,3 +911,50 @@ class GeomLik(LinLik):
             return self.A @ self.K
         dm = x ** 2 + 1 if self.map_kind == "cubic" else 0.5 * np.exp(x / 2)
         return self.A * dm[None, :]
+
+
+class GradBad(Target):
+    """Hostile target for gradient-based kernels: the log-density is FINITE everywhere, but the gradient is NaN,
+    +inf or -inf in the half space x[0] > c (c >= 2.5, so that ones(d) is admissible).  The MH ratio of a Langevin
+    proposal landing there is undefined or zero: such a move must never be accepted."""
+    name = "gradbad"
+    has_bad = "gradnan"
+
+    def __init__(self, rs, d, grad_kind="nan"):
+        self.d = d
+        self.c = rs.uniform(2.5, 3.5)
+        self.mu = rs.uniform(0.0, 2.0, d)
+        self.sig = rs.uniform(0.7, 2.0, d)
+        self.grad_kind = grad_kind
+
+    def in_bad(self, x):
+        return bool(np.asarray(x, float)[0] > self.c)
+
+    def lp(self, x):
+        x = np.asarray(x, float)
+        return float(-0.5 * np.sum(((x - self.mu) / self.sig) ** 2))
+
+    def grad(self, x):
+        x = np.asarray(x, float)
+        g = -(x - self.mu) / self.sig ** 2
+        if self.in_bad(x):
+            k = self.grad_kind
+            if k == "nan":
+                return np.full(self.d, np.nan)
+            if k == "nan_one":
+                g = g.copy(); g[0] = np.nan; return g
+            return np.full(self.d, np.inf if k == "posinf" else -np.inf)
+        return g
+
+    def typical(self, rs):
+        for _ in range(100):
+            x = self.mu + self.sig * rs.standard_normal(self.d)
+            if x[0] < self.c - 0.2:
+                return x
+        x[0] = self.c - 1.0
+        return x
+
+    def bad_point(self, rs, x):
+        y = np.array(x, float)
+        y[0] = self.c + rs.uniform(0.05, 1.5)
+        return y, 0
